@@ -260,6 +260,58 @@ pub struct NetProgram {
     /// a complete second life cycle (C12)
     #[serde(default)]
     pub rerun: bool,
+    /// environment dimension: a `tracing` subscriber that accepts every level and formats every field is installed while
+    /// the simulation is built, run and dropped (the arguments of log statements are evaluated only then)
+    #[serde(default)]
+    pub logging: bool,
+}
+
+/// a subscriber that accepts everything, formats every field of every event and throws the text away
+struct LogSink;
+struct NullWriter;
+impl std::fmt::Write for NullWriter {
+    fn write_str(&mut self, _: &str) -> std::fmt::Result {
+        Ok(())
+    }
+}
+impl tracing::field::Visit for NullWriter {
+    fn record_debug(&mut self, _field: &tracing::field::Field, value: &dyn std::fmt::Debug) {
+        let _ = std::fmt::Write::write_fmt(self, format_args!("{value:?}"));
+    }
+}
+impl tracing::Subscriber for LogSink {
+    fn enabled(&self, _: &tracing::Metadata<'_>) -> bool {
+        true
+    }
+    fn new_span(&self, attrs: &tracing::span::Attributes<'_>) -> tracing::span::Id {
+        attrs.record(&mut NullWriter);
+        tracing::span::Id::from_u64(1)
+    }
+    fn record(&self, _: &tracing::span::Id, values: &tracing::span::Record<'_>) {
+        values.record(&mut NullWriter);
+    }
+    fn record_follows_from(&self, _: &tracing::span::Id, _: &tracing::span::Id) {}
+    fn event(&self, event: &tracing::Event<'_>) {
+        LOGGED.with(|c| c.set(c.get() + 1));
+        event.record(&mut NullWriter);
+    }
+    fn enter(&self, _: &tracing::span::Id) {}
+    fn exit(&self, _: &tracing::span::Id) {}
+}
+thread_local! {
+    static LOGGED: std::cell::Cell<u64> = const { std::cell::Cell::new(0) };
+}
+/// number of log events the sink has formatted on this thread since the last call
+pub fn take_logged() -> u64 {
+    LOGGED.with(|c| c.replace(0))
+}
+
+pub fn run_net(prog: &NetProgram, opts: &RunOpts) -> NetResult {
+    if prog.logging {
+        tracing::subscriber::with_default(LogSink, || run_net_quiet(prog, opts))
+    } else {
+        run_net_quiet(prog, opts)
+    }
 }
 
 // ---------------------------------------------------------------- trace
@@ -1131,7 +1183,7 @@ fn go_silent(m: usize) {
 
 /// Executes a (normalised) program on the real net layer. Never panics itself: escaping panics are reported.
 #[allow(clippy::too_many_lines)]
-pub fn run_net(prog: &NetProgram, opts: &RunOpts) -> NetResult {
+fn run_net_quiet(prog: &NetProgram, opts: &RunOpts) -> NetResult {
     let prog = Rc::new(normalise(prog));
     let mut res = NetResult::default();
     let nmod = prog.modules.len();
